@@ -30,6 +30,7 @@ func genC02(seed uint64, tier string) *Case {
 		"gossip": 6 + g.Intn(8), "deliver": 8 + g.Intn(10), "dup": g.Intn(4), "drop": g.Intn(5),
 		"leave": 1 + g.Intn(3), "crash": g.Intn(3), "start": 1 + g.Intn(3), "fl": g.Intn(3),
 		"up": 1 + g.Intn(4), "down": 1 + g.Intn(4), "pp": g.Intn(4), "adv": 2 + g.Intn(4), "inject": g.Intn(3),
+		"early": g.Intn(2),
 	}
 	ops := make([]string, 0, len(w))
 	for k := range w {
@@ -70,6 +71,12 @@ func genC02(seed uint64, tier string) *Case {
 			s.D = int64(g.Intn(5)) - 2
 			s.K = g.Intn(n)
 			s.F = g.Bool(0.15)
+		case "early":
+			// 2-4 intents about a member the observer has not heard of yet (kinds and times
+			// in any order, ties and stale ones included), then memberlist reports it
+			for k := 0; k < 2+g.Intn(3); k++ {
+				s.X = append(s.X, g.Intn(2), 1+g.Intn(6)) // kind (0 join, 1 leave), Lamport time
+			}
 		}
 		c.Steps = append(c.Steps, s)
 	}
@@ -101,6 +108,7 @@ type c02 struct {
 	n  int
 	m  []*c02Member
 	prev []map[string]MemberView // last view per observer (nil when down)
+	ghosts int
 }
 
 func execC02(r *Run) {
@@ -325,6 +333,42 @@ func (e *c02) step(s Step) {
 	case "adv":
 		c.Advance(time.Duration(s.D))
 		r.Logf("advance %v", time.Duration(s.D))
+	case "early":
+		// intents about a not-yet-known member are buffered; the newest wins (the first one
+		// on a tie), whatever its kind, and decides how the member comes up
+		to := s.I % e.n
+		if !e.m[to].running || len(s.X) < 2 {
+			return
+		}
+		e.ghosts++
+		gn := ghostNode(40 + e.ghosts)
+		kind, best := -1, uint64(0)
+		for k := 0; k+1 < len(s.X); k += 2 {
+			lt := uint64(s.X[k+1])
+			if s.X[k] == 0 {
+				c.DeliverMsg(&Msg{To: to, From: -1, Buf: wEnc(mtJoin, &wJoin{LTime: lt, Node: gn.Name}), Kind: "inject"})
+			} else {
+				c.DeliverMsg(&Msg{To: to, From: -1, Buf: wEnc(mtLeave, &wLeave{LTime: lt, Node: gn.Name}), Kind: "inject"})
+			}
+			if kind < 0 || lt > best {
+				kind, best = s.X[k], lt
+			}
+		}
+		c.Nodes[to].conf().Events.NotifyJoin(gn)
+		c.Wait()
+		r.Fault("intents-before-member-known")
+		want := "alive"
+		if kind == 1 {
+			want = "leaving"
+		}
+		got := c.View(to)[gn.Name]
+		r.Logf("early intents %v about %s at n%d -> %s@%d (want %s@%d)", s.X, gn.Name, to, got.Status, got.LTime, want, best)
+		if got.Status != want || got.LTime != best {
+			r.Fail("buffered-intent-not-resolved-by-time", "C02 early-intent", "observer n%d received intents (kind 0=join 1=leave, time) %v about a member it did not know yet; when memberlist reported the member it came up %s@%d, expected %s@%d (the newest intent, the first one on a tie)", to, s.X, got.Status, got.LTime, want, best)
+		}
+		// memberlist loses it again: it stays out of the way of the rest of the history
+		c.Nodes[to].conf().Events.NotifyLeave(gn)
+		c.Wait()
 	case "inject":
 		// crafted intent about member K with a Lamport time relative to what
 		// the receiver has recorded (stale, equal, newer)
